@@ -37,8 +37,9 @@ Function descriptions are S-expressions mirroring cproc's typed tree after parsi
 
 Fragment 𝔽₂ (function bodies with statements, `Model/CSem2.lean`, `Model/Lower2.lean`): a line may also be
 
-    FUNC ::= (fn2 NAME RET (TY …) (TY …) STMT)   RET name(params) STMT; the second list: types of the
-                                                  block-scope objects in the order of their declarations
+    FUNC ::= (fn2 NAME RET (TY …) (LTY …) STMT)  RET name(params) STMT; the second list: types of the
+                                                  block-scope objects in the order of their declarations;
+                                                  LTY ::= TY | (TY N) - an array of N elements
     STMT ::= (skip)                               `;` / `{}`
            | (decl K TY) | (decl K TY EXPR)       declaration of variable K without / with initialiser
                                                   (EXPR already converted to TY, as `parseinit` does)
@@ -57,6 +58,9 @@ Fragment 𝔽₂ (function bodies with statements, `Model/CSem2.lean`, `Model/Lo
            | (case U) | (default)                 labels; U = `intconstexpr`'s value as unsigned decimal
            | (call DST RT NAME EXPR …)            `[x =] NAME(args);`  DST ::= (none) | (K TY); RT the return
                                                   type of NAME; the EXPRs already converted to the parameter types
+           | (adecl K TY N)                       `TY a[N];` - variable K is an array (stage E)
+           | (aload D DT A TY N EXPR)             `x = a[EXPR];` x = variable D of type DT, a = variable A
+           | (astore A TY N IDX EXPR)             `a[IDX] = EXPR;` (EXPR converted to TY)
 A PROGRAM (stage D, `Model/CSem3.lean`) is a line `(prog FUNC2 …)`: `emit` prints its functions in order;
 `eval` on `(prog …) | a1 a2 …` calls the LAST function with the arguments: `c=` is `CSem3.runP`, `il=` the
 result of `Qbe.runFunc` on the module of all emitted functions; `wt=0` unless `CSem3.wtP`.
@@ -184,11 +188,38 @@ def parseStmtF : Nat → SExp → Except String Stmt
       pure (.call d (← parseTy rt) name (← args.mapM (parseExprF n)))
     | .list [.atom "break"] => pure .break_
     | .list [.atom "continue"] => pure .continue_
+    | .list [.atom "adecl", k, t, cnt] => do pure (.adecl (← parseNat k) (← parseTy t) (← parseNat cnt) 0)
+    | .list [.atom "aload", d, dt, a, t, cnt, x] => do
+      pure (.aload (← parseNat d) (← parseTy dt) (← parseNat a) (← parseTy t) (← parseNat cnt) 0
+        (← parseExprF n x))
+    | .list [.atom "astore", a, t, cnt, x, v] => do
+      pure (.astore (← parseNat a) (← parseTy t) (← parseNat cnt) 0 (← parseExprF n x) (← parseExprF n v))
     | _ => .error "statement"
+
+/-- fill in the cell numbers of the array elements (`CSem2.xbase`), which the layout determines -/
+def setXb (cnts : List Nat) : CSem2.Stmt → CSem2.Stmt
+  | .seq a b => .seq (setXb cnts a) (setXb cnts b)
+  | .ite c a => .ite c (setXb cnts a)
+  | .itee c a b => .itee c (setXb cnts a) (setXb cnts b)
+  | .while_ c b => .while_ c (setXb cnts b)
+  | .dowhile b c => .dowhile (setXb cnts b) c
+  | .for_ c st b => .for_ c (setXb cnts st) (setXb cnts b)
+  | .switch_ e b => .switch_ e (setXb cnts b)
+  | .adecl i t n _ => .adecl i t n (CSem2.xbase cnts i)
+  | .aload d dt a t n _ x => .aload d dt a t n (CSem2.xbase cnts a) x
+  | .astore a t n _ x v => .astore a t n (CSem2.xbase cnts a) x v
+  | st => st
 
 def parseFunc2 (fuel : Nat) : SExp → Except String CSem2.Func
   | .list [.atom "fn2", .atom name, ret, .list ps, .list ls, body] => do
-    pure ⟨name, ← parseTy ret, ← ps.mapM parseTy, ← ls.mapM parseTy, ← parseStmtF fuel body⟩
+    let lt ← ls.mapM fun
+      | .list [t, _] => parseTy t
+      | t => parseTy t
+    let lc ← ls.mapM fun
+      | .list [_, c] => parseNat c
+      | _ => pure 1
+    let f : CSem2.Func := ⟨name, ← parseTy ret, ← ps.mapM parseTy, lt, ← parseStmtF fuel body, lc⟩
+    pure { f with body := setXb f.cnts f.body }
   | _ => .error "function"
 
 inductive Line where
